@@ -949,9 +949,34 @@ fn run_r<C: Crypto>(crypto: &C, f: &[&str]) -> String {
     }
 }
 
+/// E <id> <world> <session> <plain;proto> <payload>: the real `Session::encode` of an arbitrary header
+fn run_e<C: Crypto>(crypto: &C, f: &[&str]) -> String {
+    let sender = SessS::parse(f[3]);
+    let (ps, xs) = f[4].split_once(';').unwrap();
+    let p: Vec<u64> = ps.split('.').map(|v| v.parse().unwrap()).collect();
+    let x: Vec<u64> = xs.split('.').map(|v| v.parse().unwrap()).collect();
+    let mut hdr = PacketHdr::new();
+    hdr.plain = PlainHdr::verif_from_raw(p[0] as u8, p[1] as u16, p[2] as u8, p[3] as u32, p[4], p[5]).unwrap();
+    hdr.proto = ProtoHdr::verif_from_raw(x[0] as u16, x[1] as u8, x[2] as u16, x[3] as u8, x[4] as u16, x[5] as u32).unwrap();
+    let payload = if f[5] == "-" { vec![] } else { unhex(f[5]) };
+    let node = Node::new();
+    node.install_sessions(crypto, std::slice::from_ref(&sender));
+    let mut out = [0u8; 1700];
+    let r = node.matter.with_state(|state| {
+        let sessions = state.verif_sessions();
+        let id = sessions.iter().last().unwrap().id();
+        sessions.get(id).unwrap().verif_encode(crypto, &hdr, &payload, &mut out)
+    });
+    match r {
+        Ok(n) => format!("E {} {}", f[1], hex(&out[..n])),
+        Err(e) => format!("E {} err:{}", f[1], err_class(&e)),
+    }
+}
+
 fn run_line<C: Crypto>(crypto: &C, line: &str) -> Option<String> {
     let f: Vec<&str> = line.split(' ').collect();
     match f[0] {
+        "E" if f.len() == 6 => Some(run_e(crypto, &f)),
         "D" if f.len() == 10 => Some(run_d(crypto, &f)),
         "R" if f.len() == 14 => Some(run_r(crypto, &f)),
         _ => None,
@@ -1140,6 +1165,23 @@ fn generate<C: Crypto>(crypto: &C, tier: &str, seed: u64) -> (Vec<String>, BTree
             let hdr = mk_hdr(src, sh.1, sh.2, 7, sh.3, ctr, 40 + si as u16, sh.4, 1, 2, sh.5, sh.6);
             let payload = payload_of(&mut g.rng, len);
             let (e, wire) = honest(crypto, 11, *snode, &hdr, &payload);
+            // the sending end's real `Session::encode` must produce exactly this datagram
+            {
+                let mut to = addr_b();
+                to.kind = *kind;
+                let sender = sess(mode.clone(), to, *snode, Some(NODE_B), 12, 11, 9, 7);
+                let id = g.lines.len();
+                g.count("encodes", 1);
+                g.count("cases_E", 1);
+                g.lines.push(format!(
+                    "E {} {} {} {} {}",
+                    id,
+                    e.show(),
+                    sender.show(),
+                    hdr_show(&hdr),
+                    if payload.is_empty() { "-".to_string() } else { hex(&payload) }
+                ));
+            }
             let sessions = table_with(target);
             g.push_d(
                 &format!("U-{}", mname),
@@ -1760,6 +1802,86 @@ fn generate<C: Crypto>(crypto: &C, tier: &str, seed: u64) -> (Vec<String>, BTree
                     groups: groups.clone(),
                     from: addr_a(),
                     oracle: (7, None),
+                },
+            );
+        }
+    }
+
+    // ---------------------------------------------------------------- Q: random shapes (seed-dependent)
+    {
+        let n = if thorough { 600 } else { 24 };
+        for qi in 0..n {
+            let r = &mut g.rng;
+            let mode_i = r.below(4);
+            let (mode, snode, rpeer) = match mode_i {
+                0 => (Mode::Pase(r.below(3) as u8), 0u64, Some(0u64)),
+                1 => (Mode::Case(1 + r.below(3) as u8), NODE_A, Some(NODE_A)),
+                2 => (Mode::Case(1), r.next() | 1, None),
+                _ => (Mode::Case(2), r.next(), Some(0)),
+            };
+            let snode = if mode_i == 3 { rpeer.unwrap() } else if mode_i == 2 { 0 } else { snode };
+            let kind = [0u8, 0, 0, 1][r.below(4) as usize];
+            let from = AddrS { kind, ..AddrS::udp4(1 + r.below(3) as u8, 5540 + r.below(3) as u16) };
+            let lsid = 1 + r.below(0xfffe) as u16;
+            let mut target = sess(mode, from.clone(), r.next(), rpeer, 11, 12, lsid, 1 + r.below(100) as u16);
+            let base_ctr = r.below(1 << 32) as u32;
+            target.win = match r.below(3) {
+                0 => (false, 0, 0),
+                1 => (true, base_ctr, r.below(1 << 16) as u16),
+                _ => (true, base_ctr.wrapping_sub(5), 0xffff),
+            };
+            let ctr = base_ctr.wrapping_add(r.below(40) as u32).wrapping_sub(20);
+            let nex = r.below(6) as usize;
+            target.exchs = (0..nex)
+                .map(|i| {
+                    if r.chance(1, 5) {
+                        None
+                    } else {
+                        let role = if r.chance(1, 2) { 'I' } else { 'R' };
+                        let retr = if r.chance(1, 3) { Some(1000 + i as u32) } else { None };
+                        let ack = if r.chance(1, 3) { Some((r.below(1000) as u32, r.chance(1, 2))) } else { None };
+                        ex(r.below(4) as u16, role, ['o', 'd', 'p'][r.below(3) as usize], retr, ack)
+                    }
+                })
+                .collect();
+            // a trailing free slot cannot be told from a shorter table in a snapshot
+            while matches!(target.exchs.last(), Some(None)) {
+                target.exchs.pop();
+            }
+            target.expired = r.chance(1, 8);
+            let src = if r.chance(1, 4) { Some(if r.chance(2, 3) { rpeer.unwrap_or(5) } else { NODE_C }) } else { None };
+            let dstu = if r.chance(1, 5) { Some(r.next()) } else { None };
+            let dstg = if dstu.is_none() && r.chance(1, 6) { Some(r.below(1 << 16) as u16) } else { None };
+            let sec = [0u8, 0, 0, 0x20, 0x40, 0x80, 0xe0][r.below(7) as usize];
+            let xflags = r.below(32) as u8;
+            let (pid, opcode) = [(1u16, 2u8), (1, 5), (0, 0x10), (0, 0x40), (0, 0x30), (0xfff1, 9)][r.below(6) as usize];
+            let vendor = if xflags & 0x10 != 0 { Some(r.below(1 << 16) as u16) } else { None };
+            let ack = if xflags & 0x02 != 0 { Some(if r.chance(1, 2) { 1000 } else { r.below(1 << 32) as u32 }) } else { None };
+            let hdr = mk_hdr(src, dstu, dstg, lsid, sec, ctr, r.below(4) as u16, xflags & !0x12, pid, opcode, vendor, ack);
+            let len = if qi % 6 == 5 { 200 + r.below(900) as usize } else { r.below(40) as usize };
+            let payload = payload_of(r, len);
+            let (e, wire) = honest(crypto, 11, snode, &hdr, &payload);
+            let mut muts = vec!["-".to_string()];
+            if len < 64 {
+                muts.push("F".into());
+            } else {
+                for _ in 0..24 {
+                    muts.push(format!("f{}", g.rng.below(wire.len() as u64 * 8)));
+                }
+            }
+            muts.push("T".into());
+            muts.push("X".into());
+            g.push_d(
+                "Q",
+                DCase {
+                    world: vec![e],
+                    sessions: table_with(target),
+                    groups: vec![],
+                    from,
+                    oracle: (0, None),
+                    prelude: vec![],
+                    wire,
+                    muts,
                 },
             );
         }
